@@ -222,6 +222,9 @@ Definition discover_address (n : net) (i : nat) (a : addr) (s : option service) 
 Definition set_union (old new : list service) : list service :=
   fold_left (fun acc s => if mem_z s acc then acc else acc ++ [s]) new old.
 
+(* set(services) *)
+Definition svc_set (l : list service) : list service := set_union [] l.
+
 (* service_cache.remove(peer): first element equal (by key) to the peer *)
 Fixpoint remove_first_key (h : list obj) (k : key) (l : list nat) : list nat :=
   match l with
@@ -238,7 +241,7 @@ Definition svc_cache_add (h : list obj) (cap : Z) (k : key) (p : nat)
 
 Definition discover_services (n : net) (i : nat) (ss : list service) : net :=
   let k := hkey (heap n) i in
-  let n1 := set_services n (d_set Z.eqb k (set_union (svc_of n k) ss) (services n)) in
+  let n1 := set_services n (d_set Z.eqb k (set_union (svc_of n k) (svc_set ss)) (services n)) in
   let p := match d_get Z.eqb k (by_key n) with Some j => j | None => i end in
   set_svc_cache n1 (fold_left (svc_cache_add (heap n) (svc_cap n) k p) ss (svc_cache n)).
 
